@@ -95,7 +95,7 @@ package safehtml
 //@   ensures refuses: !inlang(re_safeTrustedResourceURLPrefixPattern, t.str) || inlang(re_urlDoubleDotSegmentPattern, s) ==> !isnil(err)
 //@   ensures layout: isnil(err) ==> seqeq(r.str, cat(t.str, encupto(false, s, len(s))))
 //@   ensures nodotdot: isnil(err) ==> !inlang(re_urlDoubleDotSegmentPattern, s)
-//@   ensures together: isnil(err) && !inlang(re_dotDotSegmentPattern, t.str) ==> !inlang(re_dotDotSegmentPattern, r.str)
+//@   ensures together: isnil(err) && !inlang(re_dotDotSegmentPattern, urlstripupto(t.str, len(t.str))) ==> !inlang(re_dotDotSegmentPattern, urlstripupto(r.str, len(r.str)))
 //@   ensures zero: !isnil(err) ==> len(r.str) == 0
 
 //@ func ScriptFromDataAndConstant(name stringConstant, data interface{}, script stringConstant) (r Script, err error)
@@ -205,6 +205,18 @@ package safehtml
 //@   ensures layout: isnil(err) ==> seqeq(r.str, cat(selector, "{", style.str, "}"))
 //@   ensures zero: !isnil(err) ==> len(r.str) == 0
 
+//@ func withoutTabAndNewline(s string) (r string)
+//@   serves C13
+//@   ensures spec: seqeq(r, urlstripupto(s, len(s)))
+//@   loop 1
+//@     invariant 0 <= i && i <= len(s) && len(b) == slen(seq(b))
+//@     invariant seqeq(seq(b), urlstripupto(s, i))
+//@     decreases len(s) - i
+
+//@ func hasDotDotSegment(url string) (r bool)
+//@   serves C13
+//@   ensures spec: r == inlang(re_dotDotSegmentPattern, urlstripupto(url, len(url)))
+
 //@ func startsWithTwoSlashes(s string) (r bool)
 //@   serves C13
 //@   ensures spec: r == lead2(s, 0, 0)
@@ -219,7 +231,7 @@ package safehtml
 //@   ensures prefix: isnil(err) ==> inlang(re_safeTrustedResourceURLPrefixPattern, format)
 //@   ensures unsafe: !inlang(re_safeTrustedResourceURLPrefixPattern, format) ==> !isnil(err) && len(r.str) == 0
 //@   ensures hostkept: isnil(err) && !(len(format) >= 2 && format[0] == '/' && format[1] == '/') ==> !lead2(r.str, 0, 0)
-//@   ensures together: isnil(err) && !inlang(re_dotDotSegmentPattern, format) ==> !inlang(re_dotDotSegmentPattern, r.str)
+//@   ensures together: isnil(err) && !inlang(re_dotDotSegmentPattern, urlstripupto(format, len(format))) ==> !inlang(re_dotDotSegmentPattern, urlstripupto(r.str, len(r.str)))
 //@   closure 1 (match string) (piece string)
 //@     ensures sticky: !isnil(before(err)) ==> !isnil(err)
 //@     ensures missing: !haskey(args, sub(match, 2, len(match) - 1)) ==> !isnil(err) && len(piece) == 0
